@@ -295,6 +295,8 @@ class SpecEval(object):
                 return eq(x.term, ZERO)
             if isinstance(x, T):
                 return eq(x, ZERO)
+            if isinstance(x, FuncV):
+                return FALSE          # a named function or a function literal is never nil
             raise SpecError('nil comparison of %r' % (x,))
         if isinstance(x, T) and isinstance(y, T):
             return eq(x, y)
